@@ -320,12 +320,27 @@ NOT_APPLICABLE = {
 ALL = ['C%02d' % i for i in range(1, 21)]
 
 
+# dependency phases (pyvc/runner.py DEPENDS): obligations of other properties re-generated in the same run
+DEPENDS_TEXT = {
+    'C03': 'C04 (every cell of the state table, with the frame clauses: an action leaves the receive buffer and unread '
+           'indications alone)',
+    'C06': 'C02 for PresentationDataValueItem and PDataTfPDU (the wire form of the fragments)',
+    'C15': 'C06 (fragmentation) and C07 (reassembly)',
+    'C16': 'C06 (fragmentation) and C07 (reassembly)',
+    'C19': 'C15 (storage_scu: one sub-operation is one C-STORE request)',
+}
+
+
 def main():
     checks = []
     for pid in ALL:
         if pid not in CLAIMED:
             continue
-        c = CLAIMED[pid]
+        c = dict(CLAIMED[pid])
+        if pid in DEPENDS_TEXT:
+            c['text'] = c['text'].rstrip() + (' In the same run the obligations of the properties this statement '
+                                              'rests on are re-generated on interpreters of their own: %s.'
+                                              % DEPENDS_TEXT[pid])
         checks.append({
             'property_id': pid,
             'quick_cmd': './check %s --tier quick' % pid,
